@@ -4,6 +4,7 @@ import (
 	"encoding/binary"
 	"fmt"
 	"math"
+	"sort"
 	"strings"
 	"time"
 )
@@ -786,6 +787,9 @@ func (vm *VM) execGetIter() error {
 		for k := range objVal.Val {
 			iter.keys = append(iter.keys, k)
 		}
+		// Key order, not Go's random map order: the outcome of a program must
+		// not depend on it (the interpreter iterates the same way)
+		sort.Strings(iter.keys)
 	}
 
 	// Store iterator and push ID
